@@ -420,10 +420,16 @@ pub trait PixelDataWriter {
     ) -> EncodeResult<Vec<AttributeOp>> {
         let frames = src.number_of_frames().unwrap_or(1);
         let mut out = Vec::new();
+        // offset of the next frame's item,
+        // counted from the first item after the basic offset table
+        let mut offset = 0u32;
         for frame in 0..frames {
             let mut frame_data = Vec::new();
             out = self.encode_frame(src, frame, options.clone(), &mut frame_data)?;
-            offset_table.push(frame_data.len() as u32 + 8 * (frame + 1));
+            offset_table.push(offset);
+            // item header plus fragment data (padded to even length when written)
+            let len = frame_data.len() as u32;
+            offset += 8 + len + len % 2;
             dst.push(frame_data);
         }
         Ok(out)
